@@ -21,6 +21,7 @@ import PyTealV.Cmd.C11
 import PyTealV.Cmd.C09
 import PyTealV.Cmd.C05
 import PyTealV.Cmd.C07
+import PyTealV.Cmd.C06
 namespace PyTealV.Cmd
 
 def extraCommands : List (String × (List String → String)) := [
@@ -66,7 +67,8 @@ def extraCommands : List (String × (List String → String)) := [
   ("c09-const", C09.const), ("c09-glue", C09.glueCmd), ("c09-binding", C09.bindingCmd),
   ("c09-run", C09.runCmd), ("c09-wrap", C09.wrapCmd), ("c09-contract", C09.contractCmd),
   ("c05-check", C05.check),
-  ("c07-descr", C07.descr), ("c07-plan", C07.planCmd), ("c07-path", C07.pathCmd)
+  ("c07-descr", C07.descr), ("c07-plan", C07.planCmd), ("c07-path", C07.pathCmd),
+  ("c06-descr", C06.descrCmd), ("c06-set", C06.setCmd), ("c06-tuple", C06.tupleCmd), ("c06-uint", C06.uintCmd)
 ]
 
 def dispatch (cmd : String) (args : List String) : Option String :=
